@@ -145,7 +145,9 @@ impl Table {
                 )?;
             }
         }
-        Ok(())
+        // Make sure any buffered data reaches the underlying medium (and any
+        // error doing so is reported) before the writer is dropped.
+        writer.flush()
     }
 }
 
